@@ -79,3 +79,12 @@ func max(a, b int) int {
 	}
 	return b
 }
+
+// short renders a value with %v and truncates the text.
+func short(x interface{}, n int) string {
+	s := fmt.Sprintf("%v", x)
+	if len(s) > n {
+		s = s[:n] + "…"
+	}
+	return s
+}
